@@ -281,7 +281,68 @@ func c10OneCutoff(c *Ctx) {
 		c.R.Errorf("Vacuum has no time.Time cutoff parameter")
 		return
 	}
-	isCut := func(v ssa.Value) bool { return an.SameValue(sc.ArgOfParam(v), cut) }
+	// the cutoff, or the cutoff clamped to a range: a value whose phi leaves are the parameter, a
+	// package-level time (an end of the range) or such a time moved by a constant
+	var clampedCut func(v ssa.Value, d int) bool
+	clampedCut = func(v ssa.Value, d int) bool {
+		v = sc.ArgOfParam(v)
+		if an.SameValue(v, cut) {
+			return true
+		}
+		if d > 6 {
+			return false
+		}
+		switch x := v.(type) {
+		case *ssa.Phi:
+			sawCut := false
+			for _, e := range x.Edges {
+				if e == ssa.Value(x) {
+					continue
+				}
+				if !clampedCut(e, d+1) {
+					return false
+				}
+				if an.DependsOn(e, func(w ssa.Value) bool { return w == ssa.Value(cut) }) || an.SameValue(e, cut) {
+					sawCut = true
+				}
+			}
+			return sawCut
+		case *ssa.UnOp:
+			if g, ok := x.X.(*ssa.Global); ok && x.Op == token.MUL {
+				nt := an.NamedOf(g.Type().(*types.Pointer).Elem())
+				return nt != nil && nt.Obj().Name() == "Time"
+			}
+		case *ssa.Call:
+			if f := x.Call.StaticCallee(); f != nil && an.PkgPathOf(f) == "time" && f.Name() == "Add" && len(x.Call.Args) == 2 {
+				if _, isK := constInt(x.Call.Args[1]); isK {
+					return clampedCut(x.Call.Args[0], d+1)
+				}
+			}
+		}
+		return false
+	}
+	var theCut ssa.Value // the one value all three sides must use
+	isCut := func(v ssa.Value) bool {
+		if !clampedCut(v, 0) {
+			return false
+		}
+		// a bare range end is not the cutoff
+		if _, isLoad := sc.ArgOfParam(v).(*ssa.UnOp); isLoad {
+			return false
+		}
+		if theCut == nil {
+			theCut = sc.ArgOfParam(v)
+			return true
+		}
+		return an.SameValue(sc.ArgOfParam(v), theCut)
+	}
+	// the last use fixes the value: look at the purge and the version side first
+	for _, call := range sc.Calls() {
+		if an.CalleeIs(call, kvPkg, "DB", "RemoveTombstones") {
+			a := call.Common().Args
+			isCut(a[len(a)-1])
+		}
+	}
 	// row side: a Before/After comparison whose argument is the cutoff
 	rowSide := false
 	for _, call := range sc.Calls() {
@@ -301,7 +362,7 @@ func c10OneCutoff(c *Ctx) {
 			if (t.typ != "" && an.CalleeIs(call, kvPkg, t.typ, t.m)) || (t.typ == "" && call.Common().StaticCallee() == dh) {
 				found = true
 				a := call.Common().Args
-				c.R.Cond(isCut(a[len(a)-1]), rule, name+": "+t.what+" uses the same cutoff", c.P.Pos(call.Pos()), "the cutoff parameter is passed unchanged", "the "+t.what+" gets a different time than the row side: rows, tombstones and versions are reclaimed against different cutoffs")
+				c.R.Cond(isCut(a[len(a)-1]), rule, name+": "+t.what+" uses the same cutoff", c.P.Pos(call.Pos()), "the cutoff (as given, or clamped to the storable range) is the same value on all three sides", "the "+t.what+" gets a different time than the other sides: rows, tombstones and versions are reclaimed against different cutoffs")
 			}
 		}
 		if !found {
